@@ -628,6 +628,34 @@ def rule_g(model, rep):
         rep.undecided(RF, "<instance-count>", f"only {nf} dryrun-forwarding call sites found, expected at least 3")
 
 
+# ----------------------------------------------------------------------------- C03.m
+def rule_m(model, rep):
+    """a per-backend 'already done' flag is written on the object it is tested on"""
+    R = "C03.m-once-flag-receiver"
+    n = 0
+    for un, unit in model.units.items():
+        if not un.startswith("passlib."):
+            continue
+        for q, fn in unit.functions():
+            guards = {}
+            for st in walk_no_nested(fn):
+                if isinstance(st, ast.If) and isinstance(st.test, ast.Attribute) and st.body and isinstance(st.body[-1], ast.Return):
+                    guards[st.test.attr] = ast.unparse(st.test.value)
+            if not guards:
+                continue
+            for st in walk_no_nested(fn):
+                if isinstance(st, ast.Assign) and len(st.targets) == 1 and isinstance(st.targets[0], ast.Attribute) and st.targets[0].attr in guards \
+                        and isinstance(st.value, ast.Constant) and st.value.value is True:
+                    n += 1
+                    recv = ast.unparse(st.targets[0].value)
+                    rep.check(recv == guards[st.targets[0].attr], R, site(un, q), f"tests `{guards[st.targets[0].attr]}.{st.targets[0].attr}` but sets `{ast.unparse(st.targets[0])} = True`",
+                              "the done-flag is set on the same object it is tested on (each backend mixin keeps its own)",
+                              witness="the flag lands on a shared base class: the first backend loaded marks every backend as initialised, later ones skip their feature detection "
+                                      "(e.g. bcrypt os_crypt loaded after 'bcrypt' never learns that $2$ is unsupported -> InternalBackendError / 'Invalid salt')")
+    if n < 1:
+        rep.undecided(R, "<instance-count>", "no once-flag found (expected bcrypt._finalize_backend_mixin)")
+
+
 # ----------------------------------------------------------------------------- C03.l
 def rule_l(model, rep):
     """A no-backend stub loads a backend and then re-dispatches the *same* call.  If it re-dispatches through the
@@ -853,6 +881,13 @@ def run(model, rep):
     rule_g(model, rep)
     rule_hi(model, rep)
     rule_l(model, rep)
+    rule_m(model, rep)
     # the builtin sha1-crypt / pbkdf2 backends agree with crypt(3) only if the HMAC they are built on is RFC 2104's
     from . import prim
     prim.rule_hmac(model, rep, "C03.j-builtin-hmac")
+    # ... and only if the pure-Python fall-backs compute the algorithm crypt(3) implements: tables, sibling copy and recipes (rules shared with C02)
+    from . import c02, shared
+    ren = shared.Renamed(rep, {"C02.a": "C03.k-builtin-follows-spec", "C02.c": "C03.k-builtin-follows-spec", "C02.d": "C03.k-builtin-follows-spec"})
+    c02.rule_tables(model, ren)
+    c02.rule_sibling(model, ren)
+    c02.rule_recipes(model, ren)
